@@ -147,7 +147,9 @@ def r3_shutdown_protocol(ctx):
         effs = path_effects(f, path)
         outs = call_outcomes(f, path, decs, 'std::option::Option::take')
         took = [r for s, r in outs if any(x[0] == 'field' and x[2] == 'shutdown_task' for x in walk(f.expr_operand(s.args[0], s.b, 'T')))]
-        names = [(e[1].name, e) for e in effs if e[0] == 'c']
+        # (the runtime is shut down by Rt::shutdown, or — that one-liner merged into its caller — by storing Rt::Shutdown in the slot)
+        names = [(e[1].name, e) if e[0] == 'c' else ('<store>rt::Rt::shutdown', e) for e in effs
+                 if e[0] == 'c' or (e[0] == 'w' and e[1] == 'set' and e[2] == 'rt' and e[4] is not None and str(peel(e[4])[1] if peel(e[4])[0] == 'agg' else '').endswith('Rt::Shutdown'))]
         def idx(pred):
             return [i for i, (nm, e) in enumerate(names) if pred(nm, e)]
         st_false = idx(lambda nm, e: nm == STORE and any(x[0] == 'field' and x[2] == 'active' for x in walk(e[2][0])) and e[2][1] in (('int', 0),))
@@ -266,7 +268,9 @@ def r5_reset_order(ctx):
     g = ctx.anchor('des::net::module::ctx::rt::AsyncCoreExt::reset')
     if g:
         ctx.check(bool(g.writes_to_field('rt')), 'runtime-replaced', 'AsyncCoreExt::reset installs a fresh runtime', g.where())
-    h = ctx.anchor('des::net::module::ctx::rt::Rt::shutdown')
+    hs = ctx.P.scope_of('des::net::module::ctx::rt::Rt::shutdown')
+    ctx.floor('function shutting the async runtime down', len(hs), 1)
+    h = hs[0] if hs else None
     if h:
         cur = ctx.anchor('des::net::module::ctx::rt::Rt::current')
         none = False
